@@ -1454,11 +1454,15 @@ func (ev *Event) Verify() (bool, error) {
 	return sig.Verify(idBin, pubkey), nil
 }
 
+// maxUnixSec is the largest number of seconds time.Unix can take: beyond it the
+// internal representation of time.Time wraps around into the distant past.
+const maxUnixSec = 1<<63 - 1 - 62135596800
+
 func (ev *Event) CreatedAtTime() time.Time {
 	if ev == nil {
 		return time.Unix(0, 0)
 	}
-	return time.Unix(ev.CreatedAt, 0)
+	return time.Unix(min(ev.CreatedAt, maxUnixSec), 0)
 }
 
 func (ev *Event) Address() string {
